@@ -597,6 +597,7 @@ def r5_no_stale_transition_cache(ctx, chk, rule="C02.5"):
 
 
 def run(ctx, chk):
+    shared.rule_no_keyed_collapse(ctx, chk, "C02.0:keyed", ("value_iteration_rewards", "prune_paths"))      # parallel transitions are separate transitions
     # observed through the batch driver: run_games()[name]['rewards'] must be this game's, this mode's value
     from . import C12 as _C12
     _C12.observe(ctx, chk, "C02.obs", ['rewards'])
